@@ -559,6 +559,7 @@ func runC11(r *ev.Run) {
 	})
 
 	c11AutoIDs(r)
+	c11ReplaceUnderSearch(r)
 	c11StoreRaceOnly(r)
 	c11TargetedStore(r)
 	c11RaceLog(r)
@@ -770,6 +771,80 @@ func c11StoreRaceOnly(r *ev.Run) {
 		}
 		r.Count("store-race-histories", 1)
 		r.Eval(true, ev.Digest("storerace", G, ci))
+	})
+}
+
+// c11ReplaceUnderSearch: a BM25 index holding one to three documents, each of which is re-added under its own id over
+// and over (Add on an existing id is an update) while other goroutines search. No document is ever removed, every
+// version of every document matches the query, so every search returns every id: an update is not a removal, and a
+// search that begins in the middle of one may see the old or the new version but never "nothing".
+func c11ReplaceUnderSearch(r *ev.Run) {
+	r.Cases("replace-under-search", r.Pick(6, 40), func(ci int, rng *rand.Rand) {
+		idx := comet.NewBM25SearchIndex()
+		nDocs := 1 + ci%3
+		filler := strings.Repeat("lorem ipsum dolor sit amet consectetur ", 1+rng.IntN(60))
+		text := func(id uint32, ver int) string { return fmt.Sprintf("common doc%d v%d %s", id, ver%7, filler) }
+		ids := make([]uint32, nDocs)
+		for i := range ids {
+			ids[i] = uint32(1 + i + 1000*ci)
+			if err := idx.Add(ids[i], text(ids[i], 0)); err != nil {
+				r.ViolationAt("replace-under-search", ci, "conc.bm25.add-error", err.Error(), nil)
+				return
+			}
+		}
+		var stop atomic.Bool
+		var searches, short atomic.Int64
+		var firstBad atomic.Value
+		var wg sync.WaitGroup
+		G := 2 + rng.IntN(6)
+		for g := 0; g < G; g++ {
+			wg.Add(1)
+			go func(g int) {
+				defer wg.Done()
+				for n := 0; !stop.Load(); n++ {
+					x := idx.NewSearch().WithQuery("common").WithK(0)
+					if (n+g)%3 == 1 {
+						x = idx.NewSearch().WithQuery("common").WithK(10).WithDocumentIDs(ids...)
+					}
+					res, err := x.Execute()
+					searches.Add(1)
+					if err != nil {
+						firstBad.CompareAndSwap(nil, "search error: "+err.Error())
+						short.Add(1)
+					} else if len(res) != nDocs {
+						got := []uint32{}
+						for _, t := range res {
+							got = append(got, t.Id)
+						}
+						firstBad.CompareAndSwap(nil, fmt.Sprintf("search returned ids %v, the index holds %v (each re-added under its own id, none removed)", got, ids))
+						short.Add(1)
+					}
+					if n%4 == 0 {
+						runtime.Gosched()
+					}
+				}
+			}(g)
+		}
+		rounds := r.Pick(300, 1500)
+		for v := 1; v <= rounds; v++ {
+			for _, id := range ids {
+				if err := idx.Add(id, text(id, v)); err != nil {
+					firstBad.CompareAndSwap(nil, "re-add failed: "+err.Error())
+					short.Add(1)
+				}
+			}
+			if v%16 == 0 {
+				runtime.Gosched()
+			}
+		}
+		stop.Store(true)
+		wg.Wait()
+		if short.Load() > 0 {
+			r.ViolationAt("replace-under-search", ci, "conc.bm25.missing-completed-add", fmt.Sprintf("bm25, %d documents, %d searchers, %d update rounds: %d of %d searches did not return every document; first: %v", nDocs, G, rounds, short.Load(), searches.Load(), firstBad.Load()), nil)
+		}
+		r.Count("replace-under-search:searches", searches.Load())
+		r.Count("replace-under-search:updates", int64(rounds*nDocs))
+		r.Eval(searches.Load() > 0, ev.Digest("rus", ci, nDocs, G))
 	})
 }
 
